@@ -39,6 +39,9 @@ func (cs ClientState) Validate() error {
 	if cs.TrustingPeriod > math.MaxInt64 {
 		return sdkerrors.Wrapf(sdkerrors.ErrInvalidRequest, "trusting period %d is too large", cs.TrustingPeriod)
 	}
+	if cs.Header.Time > math.MaxInt64 {
+		return sdkerrors.Wrapf(sdkerrors.ErrInvalidRequest, "header time %d is too large", cs.Header.Time)
+	}
 	// the consensus state of the client's header is stored at the header's height, and the module's
 	// genesis validation rejects a consensus state at height zero
 	if cs.Header.Height.RevisionHeight == 0 {
